@@ -94,6 +94,7 @@ func pcanon(v *vaa.VAA) string {
 }
 
 type pworld struct {
+	chainSweep int
 	fwdMu    *sync.Mutex // set while the processor's broadcast queue is the unbuffered one of production (see fullQueueFamily)
 	dbdir    string
 	downTick int // soak: the tick (index) during which the local store is unavailable; -1 = never
@@ -924,10 +925,30 @@ func (w *pworld) randMsg(emitter vaa.Address, seq uint64) *common.MessagePublica
 	var tx ethcommon.Hash
 	r.Read(tx[:])
 	chains := []vaa.ChainID{2, 2, 4, 255, 255, 1, 10001}
+	pickChain := func() vaa.ChainID {
+		if r.Intn(3) != 0 {
+			return chains[r.Intn(len(chains))]
+		}
+		// every id around the named ones, one after the other over the run (a chain id is a 16-bit number; nothing the processor
+		// does may depend on whether it has a name)
+		w.chainSweep++
+		return pchainSweep[w.chainSweep%len(pchainSweep)]
+	}
 	return &common.MessagePublication{TxHash: tx, Timestamp: time.Unix(secs[r.Intn(len(secs))], int64(r.Intn(1000000000))),
-		Nonce: r.Uint32(), Sequence: seq, ConsistencyLevel: uint8(r.Intn(256)), EmitterChain: chains[r.Intn(len(chains))],
-		TargetChain: chains[r.Intn(len(chains))], EmitterAddress: emitter, Payload: pl}
+		Nonce: r.Uint32(), Sequence: seq, ConsistencyLevel: uint8(r.Intn(256)), EmitterChain: pickChain(),
+		TargetChain: pickChain(), EmitterAddress: emitter, Payload: pl}
 }
+
+var pchainSweep = func() []vaa.ChainID {
+	var l []vaa.ChainID
+	for i := 0; i <= 40; i++ {
+		l = append(l, vaa.ChainID(i))
+	}
+	for _, i := range []int{253, 254, 255, 256, 257, 258, 9999, 10000, 10001, 10002, 32767, 32768, 65534, 65535} {
+		l = append(l, vaa.ChainID(i))
+	}
+	return l
+}()
 
 type pscen struct {
 	msgs  []*pmsg
@@ -1485,7 +1506,17 @@ func (w *pworld) rotationFamily(id string) {
 	}
 	base := w.mkVAA(k, 0)
 	step(w.setUpdate(gA))
-	switch r.Intn(7) {
+	switch r.Intn(8) {
+	case 7: // members of A sign a digest this node has not observed; a tick passes the settlement mark; rotation to B; then members
+		// that are ONLY in A sign it too: the applicable set for a digest the node never observed is the current one
+		obsAll(setA, 1)
+		if ok {
+			w.advance(31 * time.Second)
+			step(w.cleanup(preqCap))
+		}
+		step(ok && w.setUpdate(gB))
+		obsAll(setA, nA)
+		obsAll(setB, nB)
 	case 6: // published and stored under A; the entry ages out (an hour, or a restart: only the store remembers); rotation; the
 		// message is observed again with its own block time (inside the settlement window) and the members of B sign
 		step(w.message(k))
